@@ -1,4 +1,6 @@
-(* GraphIOSound.v -- what the readers accept and which exceptions they can raise. *)
+(* GraphIOSound.v -- what the readers accept and which exceptions they can raise.
+   Lemmas with suffix _gen hold for both revisions of the code (boolean af of GraphIO.v); the statements without
+   suffix are about the current code, those with suffix _as_found about the code before the repairs of D6/D7/D8. *)
 From Coq Require Import ZArith List Bool Lia ZifyBool Ascii.
 From Coq Require String.
 From Cnfgen Require Import GText GraphIO GTextFacts GraphIOFacts GraphIOMatrix GraphIODimacs GraphIOKth.
